@@ -91,7 +91,7 @@ func (e *Exec) applyContract(con *Contract, fn *ssa.Function, sig *types.Signatu
 // paramNames returns the names under which the arguments are visible to the contract.
 func contractParamNames(con *Contract, fn *ssa.Function, n int) []string {
 	var names []string
-	if fn != nil && len(fn.Params)+len(fn.FreeVars) >= n && (len(con.Params) == 0 || !con.Extern) {
+	if fn != nil && len(fn.Params)+len(fn.FreeVars) >= n && (len(con.Params) == 0 || !con.Extern || con.Opaque) {
 		for _, p := range fn.Params {
 			names = append(names, p.Name())
 		}
@@ -130,7 +130,9 @@ func resultNames(con *Contract, sig *types.Signature) []string {
 }
 
 // applyCallback handles an extern that runs a function literal inside a transaction:
-//   callback txn dbVar:txVar ...
+//
+//	callback txn dbVar:txVar ...
+//
 // begin: every txVar := dbVar; r := closure(tx); the extern's own commit may fail; committed iff the
 // result is nil; on commit every dbVar := txVar, otherwise the db variables are unchanged.
 func (e *Exec) applyCallback(con *Contract, sig *types.Signature, args []Value, guard string) Value {
@@ -198,9 +200,6 @@ func (e *Exec) applyContractFull(con *Contract, fn *ssa.Function, sig *types.Sig
 		return e.applyCallback(con, sig, args, guard)
 	}
 	s := e.st
-	if con.NoFrame {
-		unsupportedf("call of %s, whose contract says 'modifies anything'", con.RawName)
-	}
 	e.usedCallees[con.Key] = true
 	names := contractParamNames(con, fn, len(args))
 	vars := map[string]Value{}
@@ -263,6 +262,7 @@ func (e *Exec) applyContractFull(con *Contract, fn *ssa.Function, sig *types.Sig
 	}
 	// frame
 	var mods []modEntry
+	var protected map[string][]string // component -> refs of this function's variables the callee cannot reach
 	for i, m := range con.Modifies {
 		ents := e.modEntriesSafe(env, m, con.ModText[i], con)
 		if i < len(con.ModCond) && con.ModCond[i] != nil {
@@ -272,6 +272,29 @@ func (e *Exec) applyContractFull(con *Contract, fn *ssa.Function, sig *types.Sig
 			}
 		}
 		mods = append(mods, ents...)
+	}
+	if con.NoFrame {
+		// "modifies anything": every heap, element, map and ghost component is havocked
+		if !e.discovery && !e.lemmaMode && !(e.Con != nil && e.Con.NoFrame) {
+			e.oblige("frame", "anything@"+shortKey(con.Key), "call of "+con.RawName+" (modifies anything) from a function with a frame", nil, "", "false")
+		}
+		if e.discovery && e.cur != nil {
+			if e.writes[e.cur] == nil {
+				e.writes[e.cur] = map[string]bool{}
+			}
+			e.writes[e.cur]["*ALL"] = true
+		}
+		var names []string
+		for k := range e.compSort {
+			if strings.HasPrefix(k, "H|") || strings.HasPrefix(k, "E|") || strings.HasPrefix(k, "M|") || strings.HasPrefix(k, "G|") {
+				names = append(names, k)
+			}
+		}
+		sort.Strings(names)
+		for _, k := range names {
+			mods = append(mods, modEntry{comp: k, text: "anything"})
+		}
+		protected = e.unsharedCells()
 	}
 	for _, m := range mods {
 		cur := e.compTerm(s, m.comp, e.compSort[m.comp])
@@ -290,6 +313,9 @@ func (e *Exec) applyContractFull(con *Contract, fn *ssa.Function, sig *types.Sig
 			nw = "(store " + cur + " " + m.ref + " " + e.freshConst("hv_"+m.comp, rng) + ")"
 		}
 		e.reach = saveR
+		for _, r := range protected[m.comp] {
+			nw = "(store " + nw + " " + r + " (select " + cur + " " + r + "))"
+		}
 		if m.cond != "" {
 			nw = "(ite " + m.cond + " " + nw + " " + cur + ")"
 		}
@@ -525,8 +551,20 @@ func (e *Exec) invoke(c *ssa.CallCommon, recv Value, args []Value, guard string)
 		key := FuncKey(im.fn)
 		con := e.CS.ByKey[key]
 		cond := tags[i]
+		if con != nil && len(con.DispatchOnly) > 0 && e.Prop != "" {
+			in := false
+			for _, pr := range con.DispatchOnly {
+				if pr == e.Prop {
+					in = true
+				}
+			}
+			if !in {
+				con = nil
+			}
+		}
 		if con == nil {
-			// an implementation without a contract: this call site must exclude it
+			// an implementation without a contract (or one that is a dispatch target only in other
+			// property modes): this call site must exclude it
 			e.oblige("pre", "dyn-excluded@"+shortKey(key), "the dynamic type "+typeKey(im.dyn)+" (no contract) cannot occur here", nil, guard, "(not "+cond+")")
 			e.assume("(not " + cond + ")")
 			continue
@@ -812,4 +850,91 @@ func (e *Exec) functionalTerm(s *State, name string, args []Value, resSort strin
 		e.vc.add("(declare-fun " + fn + " (" + strings.Join(sorts, " ") + ") " + resSort + ")")
 	}
 	return "(" + fn + " " + strings.Join(terms, " ") + ")"
+}
+
+// unsharedCells: heap-allocated local variables of the current function (captured by function literals)
+// that a callee invoked at the current instruction cannot reach: their address is only ever loaded from,
+// stored to or bound into a function literal, and no literal binding them can have been created yet
+// (no control-flow path from the literal's creation to the current call).
+func (e *Exec) unsharedCells() map[string][]string {
+	out := map[string][]string{}
+	cur := e.curInstr
+	if cur == nil || cur.Block() == nil {
+		return out
+	}
+	fn := cur.Block().Parent()
+	idx := func(ins ssa.Instruction) int {
+		for i, x := range ins.Block().Instrs {
+			if x == ins {
+				return i
+			}
+		}
+		return -1
+	}
+	reaches := func(from ssa.Instruction) bool {
+		if from.Block() == cur.Block() && idx(from) < idx(cur) {
+			return true
+		}
+		seen := map[*ssa.BasicBlock]bool{}
+		var dfs func(b *ssa.BasicBlock) bool
+		dfs = func(b *ssa.BasicBlock) bool {
+			if b == cur.Block() {
+				return true
+			}
+			if seen[b] {
+				return false
+			}
+			seen[b] = true
+			for _, s := range b.Succs {
+				if dfs(s) {
+					return true
+				}
+			}
+			return false
+		}
+		for _, s := range from.Block().Succs {
+			if dfs(s) {
+				return true
+			}
+		}
+		return false
+	}
+	for _, b := range fn.Blocks {
+		for _, ins := range b.Instrs {
+			a, ok := ins.(*ssa.Alloc)
+			if !ok || !a.Heap {
+				continue
+			}
+			v, have := e.vals[a]
+			if !have || len(v.S) != 1 || a.Referrers() == nil {
+				continue
+			}
+			safe := true
+			for _, r := range *a.Referrers() {
+				switch r := r.(type) {
+				case *ssa.DebugRef:
+				case *ssa.UnOp:
+				case *ssa.Store:
+					if r.Val == ssa.Value(a) {
+						safe = false
+					}
+				case *ssa.MakeClosure:
+					if reaches(r) {
+						safe = false
+					}
+				default:
+					safe = false
+				}
+			}
+			if !safe {
+				continue
+			}
+			elem := a.Type().(*types.Pointer).Elem()
+			for _, sd := range slotsOf(elem) {
+				name := heapComp(elem, sd.Path)
+				out[name] = append(out[name], v.S[0])
+			}
+		}
+	}
+	return out
 }
